@@ -1,5 +1,5 @@
 From Coq Require Import List ZArith Znumtheory Bool Lia.
-From OV Require Import C34.Model.
+From OV Require Import Gen.C34RefTypes C34.Model.
 Import ListNotations.
 Open Scope Z_scope.
 
@@ -725,6 +725,58 @@ Proof.
   - destruct (add_reference_spec can s i) as [H _]. lia.
   - destruct (delete_node_spec can s i) as [H _]. lia.
   - destruct (delete_reference_spec can s i) as [H _]. lia.
+Qed.
+
+(* ---- fuel of [delete] ---- *)
+(* fuel that [delete] needs: every nested call is on an existing node and removes it first *)
+Definition need (ns : list node) (id : Z) : nat :=
+  if node_exists ns id then length ns else S (length ns).
+
+Lemma remove_node_len_exists : forall ns id, node_exists ns id = true -> (length (remove_node ns id) < length ns)%nat.
+Proof.
+  induction ns as [|n ns IH]; intros id H; cbn in *; [discriminate|].
+  destruct (n_id n =? id) eqn:E; cbn.
+  - pose proof (filter_length_le (fun n0 => negb (n_id n0 =? id)) ns). unfold remove_node in *. lia.
+  - specialize (IH id H). unfold remove_node in *. lia.
+Qed.
+Lemma node_exists_len : forall ns id, node_exists ns id = true -> (1 <= length ns)%nat.
+Proof. intros [|n ns] id H; cbn in *; [discriminate | lia]. Qed.
+
+Lemma delete_fuel : forall f f1 f2 ns rs id dtr,
+  (need ns id <= f1)%nat -> (need ns id <= f2)%nat ->
+  delete f f1 ns rs id dtr = delete f f2 ns rs id dtr.
+Proof.
+  intros f f1. induction f1 as [|f1 IH]; intros f2 ns rs id dtr H1 H2.
+  - exfalso. unfold need in H1. destruct (node_exists ns id) eqn:E; [apply node_exists_len in E|]; lia.
+  - destruct f2 as [|f2]; [exfalso; unfold need in H2; destruct (node_exists ns id) eqn:E; [apply node_exists_len in E|]; lia|].
+    cbn [delete].
+    destruct (if dtr then delete_node_refs rs id else (rs, false)) as [rs1 rr]. f_equal.
+    set (ns1 := remove_node ns id).
+    assert (Hb : (length ns1 <= f1)%nat /\ (length ns1 <= f2)%nat).
+    { unfold need in H1, H2. destruct (node_exists ns id) eqn:E.
+      - pose proof (remove_node_len_exists ns id E). unfold ns1. lia.
+      - pose proof (filter_length_le (fun n0 => negb (n_id n0 =? id)) ns). unfold ns1, remove_node. lia. }
+    destruct Hb as [Hb1 Hb2].
+    generalize (if node_exists ns id || negb (f_delchild f) then targets_of rs id Aggregates else []). intros children.
+    assert (G : forall chs acc, (length (fst acc) <= length ns1)%nat ->
+      fold_left (fun (acc : list node * list ref) ch =>
+                   if node_exists (fst acc) ch then snd (delete f f1 (fst acc) (snd acc) ch dtr) else acc) chs acc =
+      fold_left (fun (acc : list node * list ref) ch =>
+                   if node_exists (fst acc) ch then snd (delete f f2 (fst acc) (snd acc) ch dtr) else acc) chs acc).
+    { induction chs as [|ch chs IHc]; intros acc Ha; cbn [fold_left]; [reflexivity|].
+      destruct (node_exists (fst acc) ch) eqn:E.
+      - assert (Hn : need (fst acc) ch = length (fst acc)) by (unfold need; rewrite E; reflexivity).
+        rewrite (IH f2 (fst acc) (snd acc) ch dtr) by lia.
+        apply IHc. pose proof (delete_len f f2 (fst acc) (snd acc) ch dtr). lia.
+      - apply IHc. exact Ha. }
+    apply G. cbn [fst]. lia.
+Qed.
+
+(* the fuel given by delete_node is enough: more fuel never changes the result *)
+Theorem delete_fuel_adequate : forall f ns rs id dtr k,
+  delete f (S (length ns) + k) ns rs id dtr = delete f (S (length ns)) ns rs id dtr.
+Proof.
+  intros. apply delete_fuel; unfold need; destruct (node_exists ns id); lia.
 Qed.
 
 (* ---- the code before each repair violates the property (witnesses from the harness corpus) ---- *)
